@@ -80,7 +80,19 @@ def do_revert(item):
         open(pf, "w").write(diff.stdout)
         r = sh(f"cd {d}/repo && git init -q . && git apply -R {pf}")
         if r.returncode != 0:
-            return name, {"SKIP": ["later commits changed the same lines: " + r.stderr.strip().splitlines()[0][:120]]}
+            # later commits changed the same lines: fall back to the tree as it was just before the fix
+            # (it lacks the later fixes as well, so the check may report more than this one defect)
+            shutil.rmtree(d + "/repo")
+            os.makedirs(d + "/repo")
+            a = sh(f"git -C {REPO} archive {h}~1 | tar -x -C {d}/repo")
+            if a.returncode != 0:
+                return name, {"SKIP": ["cannot reverse-apply and cannot extract the parent tree"]}
+            b = sh("go build ./...", cwd=d + "/repo")
+            if b.returncode != 0:
+                return name, {"SKIP": ["parent tree does not compile"]}
+            hits = run_checks(d)
+            hits["FALLBACK"] = ["tree of the parent commit used"]
+            return name, hits
         b = sh("go build ./...", cwd=d + "/repo")
         if b.returncode != 0:
             return name, {"SKIP": ["reverted tree does not compile (a later commit depends on it)"]}
@@ -185,7 +197,7 @@ def main():
     for name in sorted(res["reverted_fixes"]):
         hits = res["reverted_fixes"][name]
         propn = name.split("-")[0]
-        by = sorted(k for k in hits if k not in ("ENV", "SKIP"))
+        by = sorted(k for k in hits if k not in ("ENV", "SKIP", "FALLBACK"))
         if "SKIP" in hits:
             rev_skipped.append(name)
             print(f"{name:24s} skipped ({hits['SKIP'][0][:90]})")
@@ -194,7 +206,7 @@ def main():
             print(f"{name}: ENV {hits['ENV']}")
         if propn not in by:
             rev_missed.append(name)
-        print(f"{name:24s} {'own' if propn in by else ('other' if by else 'MISSED'):7s} {','.join(by)}")
+        print(f"{name:24s} {'own' if propn in by else ('other' if by else 'MISSED'):7s} {','.join(by)}{' (parent tree)' if 'FALLBACK' in hits else ''}")
     print(f"reverted fixes: {len(res['reverted_fixes'])}, skipped {len(rev_skipped)}, not reported by their own check: {rev_missed}")
     noisy = []
     for n in neutral:
